@@ -77,6 +77,21 @@ Theorem C06_bulk_no_fault_nil : forall H mode jobs src fault store0 nw sched,
 Proof. exact bulk_no_fault_nil. Qed.
 Print Assumptions C06_bulk_no_fault_nil.
 
+(* The bulk writers cannot get stuck and terminate: as long as the feeder or a worker has not returned
+   some thread can step (whatever faults and cancellations happened), and every enabled step
+   decreases a measure, so every run of enabled steps is at most [bmu init] long. *)
+Theorem C06_bulk_deadlock_free : forall H mode jobs src fault can_cancel store0 nw sched,
+  let s := run (bstep H mode jobs src fault can_cancel) sched (binit store0 nw) in
+  0 < nw -> bfinal s = false -> exists t, bstep H mode jobs src fault can_cancel s t <> None.
+Proof. exact bulk_deadlock_free. Qed.
+Print Assumptions C06_bulk_deadlock_free.
+
+Theorem C06_bulk_terminates : forall H mode jobs src fault can_cancel store0 nw sched s',
+  run_strict (bstep H mode jobs src fault can_cancel) sched (binit store0 nw) = Some s' ->
+  length sched <= bmu jobs (binit store0 nw).
+Proof. exact bulk_terminates. Qed.
+Print Assumptions C06_bulk_terminates.
+
 (* ChunkStorage used directly with retries (no errgroup): a failed ws.StoreChunk unmarks the id,
    so the retry stores the chunk (before and after the fix of the HasChunk path) ... *)
 Theorem C06_retry_after_store_error : forall fixed proc st i b,
